@@ -49,10 +49,10 @@ fn tamper_all<T: ChallengeInput + Serialize + DeserializeOwned>(o: &mut Outcome,
             crate::harness_error(&format!("C12: {} has {} non-response atoms, expected {} (field naming drift)", tyname, first_move.len(), n));
         }
     }
-    for (k, &i) in first_move.iter().enumerate() {
+    for (k, (&i, subname)) in first_move.iter().flat_map(|i| [(i, "other"), (i, "neg")]).enumerate() {
         let a = &t.atoms[i];
         let mut b = t.bytes.clone();
-        let sub = mutate::substitute(a.len, "other", mix(&[seed, k as u64]), &t.bytes[a.off..a.off + a.len]);
+        let sub = mutate::substitute(a.len, subname, mix(&[seed, k as u64]), &t.bytes[a.off..a.off + a.len]);
         if sub[..] == t.bytes[a.off..a.off + a.len] {
             continue;
         }
@@ -159,7 +159,43 @@ fn lib_elements(o: &mut Outcome, seed: u64) {
     if challenge_of(&p, b"") == challenge_of(&q, b"") || challenge_of(&G2Affine::from(p), b"") == challenge_of(&G2Affine::from(q), b"") {
         o.violate("challenge-ignores-element", "G2", "two different G2 elements give the same challenge".into());
     }
+    // an element and its inverse (same x-coordinate) must give different challenges
+    let p1 = refc::rand_g1(&mut s);
+    let p2 = refc::rand_g2(&mut s);
+    if challenge_of(&p1, b"") == challenge_of(&(-p1), b"") || challenge_of(&G1Affine::from(p1), b"") == challenge_of(&G1Affine::from(-p1), b"") {
+        o.violate("challenge-ignores-element", "G1(sign)", "a G1 element and its inverse give the same challenge".into());
+    }
+    if challenge_of(&p2, b"") == challenge_of(&(-p2), b"") || challenge_of(&G2Affine::from(p2), b"") == challenge_of(&G2Affine::from(-p2), b"") {
+        o.violate("challenge-ignores-element", "G2(sign)", "a G2 element and its inverse give the same challenge".into());
+    }
+    if challenge_of(&a, b"") == challenge_of(&(-a), b"") {
+        o.violate("challenge-ignores-element", "Scalar(sign)", "a scalar and its negation give the same challenge".into());
+    }
     o.bump("fault.tamper.first-move-atom");
+    // zkAbacus contexts of every length class: one input byte changed anywhere, or the length
+    for len in [0usize, 1, 31, 32, 33, 64, 255, 256, 257, 300, 1000, 4096] {
+        let base_in = s.bytes(len);
+        let base_ctx = za::Context::new(&base_in).as_bytes();
+        let mut positions: Vec<usize> = if len == 0 { vec![] } else { vec![0, len - 1, len / 2, s.usize(len), s.usize(len)] };
+        if len > 256 {
+            positions.push(256);
+            positions.push(256 + s.usize(len - 256));
+        }
+        for pos in positions {
+            let mut x = base_in.clone();
+            x[pos] ^= 1 << s.usize(8);
+            o.bump("fault.tamper.context-byte");
+            o.events += 1;
+            if za::Context::new(&x).as_bytes() == base_ctx {
+                o.violate("context-ignores-input-byte", "Context::new", format!("changing byte {} of a {}-byte context input leaves the context unchanged", pos, len));
+            }
+        }
+        let mut x = base_in.clone();
+        x.push(0);
+        if za::Context::new(&x).as_bytes() == base_ctx {
+            o.violate("context-ignores-input-byte", "Context::new", format!("appending a byte to a {}-byte context input leaves the context unchanged", len));
+        }
+    }
     // every byte position of a context fed with with_bytes
     let ctx = s.bytes(32);
     let base = ChallengeBuilder::new().with(&a).with_bytes(&ctx).finish().to_scalar();
@@ -238,10 +274,13 @@ fn abacus_establish(o: &mut Outcome, seed: u64) {
     if first.len() != 8 {
         crate::harness_error(&format!("C12: establish proof has {} non-response atoms, expected 8", first.len()));
     }
-    for &i in &first {
+    for (&i, subname) in first.iter().flat_map(|i| [(i, "other"), (i, "neg")]) {
         let a = &t.atoms[i];
         let mut b = t.bytes.clone();
-        let sub = mutate::substitute(a.len, "other", mix(&[seed, i as u64]), &t.bytes[a.off..a.off + a.len]);
+        let sub = mutate::substitute(a.len, subname, mix(&[seed, i as u64]), &t.bytes[a.off..a.off + a.len]);
+        if sub[..] == t.bytes[a.off..a.off + a.len] {
+            continue;
+        }
         b[a.off..a.off + a.len].copy_from_slice(&sub);
         let r = forge::present_establish(m, &ag, &b, "c12/est/tampered", seed);
         o.bump("fault.tamper.first-move-atom");
@@ -302,7 +341,11 @@ fn abacus_pay(o: &mut Outcome, seed: u64, share: usize) {
             continue;
         }
         let mut b = t.bytes.clone();
-        let sub = mutate::substitute(a.len, "other", mix(&[seed, k as u64]), &t.bytes[a.off..a.off + a.len]);
+        let subname = if sch.chance(1, 2) { "other" } else { "neg" };
+        let sub = mutate::substitute(a.len, subname, mix(&[seed, k as u64]), &t.bytes[a.off..a.off + a.len]);
+        if sub[..] == t.bytes[a.off..a.off + a.len] {
+            continue;
+        }
         b[a.off..a.off + a.len].copy_from_slice(&sub);
         let r = present(m, hs.amount, &hs.nonce, &hs.ctx, &b);
         o.bump("fault.tamper.first-move-atom");
